@@ -11,7 +11,8 @@
                               ; destroy_arcs; create_arcs(best_k); calculate_pdf(best_k); _clustering(best_k)
 
    The graph state ([knn], Model/Knn.v) is threaded through the candidates exactly as the Python object is
-   mutated: [k_gdens] (subgraph.density) accumulates over create_arcs calls and survives destroy_arcs,
+   mutated: [k_gdens] (subgraph.density) survives destroy_arcs and is reset by every create_arcs call (and, in
+   the unsupervised search, overwritten with max_distances[k-1] before each candidate's calculate_pdf),
    [k_order] (idx_nodes) accumulates over every clustering, densities / costs / predecessors / roots / labels
    of the previous candidate stay in the nodes until they are overwritten, and - unsupervised - the adjacency
    lists keep the plateau insertions of the earlier candidates ([k_nplat] accumulates too), so a later
